@@ -8,7 +8,7 @@ import pandas as pd
 
 from .. import lib, record, runner, tlc
 
-NUMVAL = {1: 1, 2: 2, 3: 0, 4: 1e16, 5: 1.5, 6: -0.0, 7: -3, 8: 123456.5}
+NUMVAL = {1: 1, 2: 2, 3: 0, 4: 1e16, 5: 1.5, 6: -0.0, 7: -3, 8: 123456.5, 9: 1e19}
 STRVAL = {31: 'a', 32: '7'}
 
 
